@@ -897,6 +897,45 @@ func checkC13Fallback(p *Prog, r *Report, ru *Rule) {
 				}
 				return all, def
 			}
+			/* A function of this package: what it can return. */
+			if sc := x.Common().StaticCallee(); nil != sc && nil != sc.Blocks && sc.Pkg == g.Pkg && 1 == sc.Signature.Results().Len() {
+				any, def := false, false
+				eachInstr(sc, func(i ssa.Instruction) {
+					if ret, ok := i.(*ssa.Return); ok && 1 == len(ret.Results) {
+						m, d := mayEmpty(sc, ret.Results[0], i, depth+1)
+						any = any || m
+						def = def || d
+					}
+				})
+				return any, def
+			}
+		case *ssa.Parameter:
+			/* Whatever the callers give. */
+			any, def := false, false
+			idx := paramIndex(fn, x)
+			cs := p.callersOf(fn)
+			if 0 == len(cs) || idx < 0 {
+				return true, false
+			}
+			for _, ci := range cs {
+				if idx >= len(ci.Common().Args) {
+					continue
+				}
+				m, d := mayEmpty(ci.Parent(), ci.Common().Args[idx], ci, depth+1)
+				any = any || m
+				def = def || d
+			}
+			return any, def
+		case *ssa.UnOp:
+			/* A flag's value: whatever its default, the user can give the
+			empty string; it stands for the compiled-in value when its
+			default is made from it. */
+			if token.MUL == x.Op {
+				if fc, isCall := resolveCell(x.X).(*ssa.Call); isCall && "flag.String" == calleeName(fc.Common()) && len(fc.Common().Args) >= 2 {
+					_, d := mayEmpty(fc.Parent(), fc.Common().Args[1], fc, depth+1)
+					return true, d
+				}
+			}
 		}
 		return true, false
 	}
